@@ -2,10 +2,10 @@
 // C14 — bounded second line behind the Verus unit `ping_tracker` (NOT a proof): the tracker's methods run under a mock
 // clock on every ping/pong/time history up to the bound and are compared with a direct statement of the rule.
 #![allow(dead_code, unused_imports, unused_variables, unused_macros)]
-macro_rules! trace { ($($t:tt)*) => {}; }
-macro_rules! debug { ($($t:tt)*) => {}; }
-macro_rules! info { ($($t:tt)*) => {}; }
-macro_rules! warn { ($($t:tt)*) => {}; }
+macro_rules! trace { ($($t:tt)*) => { () }; }
+macro_rules! debug { ($($t:tt)*) => { () }; }
+macro_rules! info { ($($t:tt)*) => { () }; }
+macro_rules! warn { ($($t:tt)*) => { () }; }
 use std::cell::Cell;
 use std::time::Duration;
 thread_local! { static NOW: Cell<u64> = Cell::new(0); static RND: Cell<u64> = Cell::new(1); }
